@@ -553,6 +553,50 @@ func runC11(r *core.Run) {
 		}, check)
 	r.Extra("prefix_tree", map[string]int64{"decoder_runs": totalRuns, "inputs_covered_by_sound_pruning": totalPruned, "records_accepted_and_checked_for_fixed_point": totalAccepted})
 
+	type junkCase struct {
+		Format string `json:"format"`
+		Kind   string `json:"kind"`
+		Len    int    `json:"len"`
+	}
+	r.Bound("long-junk", "every decoder on inputs made of one repeated token-alphabet byte, of an alternating pattern over the whole alphabet and of a valid record followed by junk, for lengths 4095..4097, 65535..65537 and 200000")
+	core.Clause(r, "long-junk", core.Opts{Rule: "totality on long inputs: long lines/tokens of junk (longer than every internal buffer) must give records or errors, never a panic or a hang; accepted in-domain records must be fixed points; non-trivial = all"},
+		func(emit func(junkCase) bool) {
+			for _, f := range c11Formats {
+				for _, l := range []int{4095, 4096, 4097, 65535, 65536, 65537, 200000} {
+					for i := 0; i < len(f.alphabet); i++ {
+						emit(junkCase{f.name, fmt.Sprint("repeat-", i), l})
+					}
+					emit(junkCase{f.name, "cycle", l})
+					emit(junkCase{f.name, "valid-then-junk", l})
+				}
+			}
+		},
+		func(c junkCase) core.Outcome {
+			f := c11Format_(c.Format)
+			data := make([]byte, 0, c.Len+64)
+			switch {
+			case strings.HasPrefix(c.Kind, "repeat-"):
+				var i int
+				fmt.Sscanf(c.Kind, "repeat-%d", &i)
+				data = bytes.Repeat([]byte{f.alphabet[i]}, c.Len)
+			case c.Kind == "cycle":
+				for len(data) < c.Len {
+					data = append(data, f.alphabet[(len(data)*7+len(data)/13)%len(f.alphabet)])
+				}
+			default:
+				valid := map[string]string{"fasta": ">a\nAC\n", "fastq": "@a\nA\n+\nI\n", "bed": "a\t0\t1\n", "newick": "(a,b);", "ncbi": "  A\nA 1\n", "sam": "q\t0\tr\t1\t9\t1M\t*\t0\t0\tA\tI\n"}[c.Format]
+				data = append(data, valid...)
+				for len(data) < c.Len {
+					data = append(data, "xyzzy"[len(data)%5])
+				}
+			}
+			pr := f.run(data)
+			if pr.fail != "" {
+				return core.Failf("%s decoder on %d bytes of %s: %s", c.Format, len(data), c.Kind, trunc(pr.fail, 300))
+			}
+			return core.Outcome{Class: fmt.Sprintf("%s accepted>0=%v", c.Format, pr.accepted > 0), Nontrivial: true}
+		})
+
 	// SAM template lines: 11 fields over {"", 0, a} followed by 0..2 tags
 	tagPool := []string{"", "NM:i:0", "XA:Z:", "XB:A:\x80", "XC:A:a", "XF:f:nan", "XH:H:", "XH:H:AB", "XB:B:c,1", "X:i:+1", ":Z:", "XZ:Z:\"", "NM:i:1\tNM:i:2"}
 	r.Bound("sam-templates", fmt.Sprintf("every line of 11 fields each in {'',0,a} (3^11) with no tag, and every such line whose integer fields are all 0 with every 1- and 2-tag suffix from %q", tagPool))
